@@ -619,12 +619,73 @@ pub fn c05_manager_steps(nd: &mut Nondet) {
     let mut raw_open: Vec<Attempt> = Vec::new();    // open() called, no ConnectionOpened/OpenFailure yet
     let mut dialing: Vec<Attempt> = Vec::new();     // dial()/negotiate() called, no Established/DialFailure yet
     let mut live: Vec<LiveConn> = Vec::new();       // accepted and not closed
+    let mut inbound_pending = 0usize;               // inbound sockets admitted, still negotiating
+    let mut ghost_in = 0usize;                      // counted connections of peers outside the model
+    let mut ghost_out = 0usize;
+
+    if param("arbitrary_start", 0) == 1 {
+        // inductive form: any manager state that satisfies the representation invariant checked below
+        for i in 0..NPEERS {
+            let p = peers[i];
+            let shape = nd.choose("shape", 7);
+            let mut new_conn = |manager: &mut litep2p::transport::manager::TransportManager, live: &mut Vec<LiveConn>, nd: &mut Nondet| -> ConnectionRecord {
+                let id = hooks::next_connection_id(manager);
+                let inbound = nd.bool("conn_inbound");
+                let counted = if inbound { max_in.is_some() } else { max_out.is_some() };
+                if counted { hooks::accept_counted(manager, id, inbound); }
+                live.push(LiveConn { id, peer: i, inbound });
+                ConnectionRecord { address: peer_address(i, p), connection_id: id }
+            };
+            let mut new_dial = |manager: &mut litep2p::transport::manager::TransportManager, dialing: &mut Vec<Attempt>| -> ConnectionRecord {
+                let id = hooks::next_connection_id(manager);
+                hooks::insert_pending(manager, id, p);
+                dialing.push(Attempt { id, peer: i, address: Some(peer_address(i, p)), reported: 0 });
+                ConnectionRecord { address: peer_address(i, p), connection_id: id }
+            };
+            let state = match shape {
+                0 => PeerState::Disconnected { dial_record: None },
+                1 => PeerState::Disconnected { dial_record: Some(new_dial(&mut manager, &mut dialing)) },
+                2 => PeerState::Dialing { dial_record: new_dial(&mut manager, &mut dialing) },
+                3 => {
+                    let id = hooks::next_connection_id(&mut manager);
+                    hooks::insert_pending(&mut manager, id, p);
+                    raw_open.push(Attempt { id, peer: i, address: None, reported: 0 });
+                    let mut addresses = std::collections::HashSet::new();
+                    addresses.insert(peer_address(i, p));
+                    let mut transports = std::collections::HashSet::new();
+                    transports.insert(litep2p::transport::manager::types::SupportedTransport::Tcp);
+                    PeerState::Opening { addresses, connection_id: id, transports }
+                }
+                4 => PeerState::Connected { record: new_conn(&mut manager, &mut live, nd), secondary: None },
+                5 => {
+                    let record = new_conn(&mut manager, &mut live, nd);
+                    PeerState::Connected { record, secondary: Some(SecondaryOrDialing::Dialing(new_dial(&mut manager, &mut dialing))) }
+                }
+                _ => {
+                    let record = new_conn(&mut manager, &mut live, nd);
+                    let second = new_conn(&mut manager, &mut live, nd);
+                    PeerState::Connected { record, secondary: Some(SecondaryOrDialing::Secondary(second)) }
+                }
+            };
+            hooks::set_peer_state(&mut manager, p, state);
+        }
+        // connections of other peers that occupy limit slots, and inbound sockets still negotiating
+        if max_in.is_some() { ghost_in = nd.choose("ghost_in", 2) as usize; }
+        if max_out.is_some() { ghost_out = nd.choose("ghost_out", 3) as usize; }
+        for _ in 0..ghost_in { let id = hooks::next_connection_id(&mut manager); hooks::accept_counted(&mut manager, id, true); }
+        for _ in 0..ghost_out { let id = hooks::next_connection_id(&mut manager); hooks::accept_counted(&mut manager, id, false); }
+        inbound_pending = nd.choose("inbound_pending", 2) as usize;
+        let (cin, cout) = hooks::counted(&manager);
+        if let Some(m) = max_in { assume(cin <= m); }
+        if let Some(m) = max_out { assume(cout <= m); }
+        cover("arbitrary-start");
+    }
     let mut concluded_without_report = 0usize;
 
     let steps = param("steps", 3);
     for _ in 0..steps {
         world.calls.clear();
-        match nd.choose("event", 6) {
+        match nd.choose("event", 7) {
             0 => {
                 let i = nd.choose("peer", NPEERS as u64) as usize;
                 let before = (raw_open.len(), dialing.len());
@@ -739,37 +800,47 @@ pub fn c05_manager_steps(nd: &mut Nondet) {
                 }
             }
             4 => {
-                // inbound connection from one of the peers
-                let i = nd.choose("peer", NPEERS as u64) as usize;
+                // a remote opens a TCP connection: admitted or refused by the inbound limit before negotiation
                 let in_before = hooks::counted(&manager).0;
                 let admitted = hooks::on_pending_incoming_connection(&mut manager);
                 check("c06.pending-inbound-admitted-iff-below-limit", admitted == match max_in { None => true, Some(m) => in_before < m });
-                if admitted {
-                    let id = hooks::next_connection_id(&mut manager);
-                    let address = Multiaddr::empty().with(Protocol::Ip4(Ipv4Addr::new(10, 0, 1, i as u8 + 1))).with(Protocol::Tcp(5000));
-                    let endpoint = Endpoint::Listener { address, connection_id: id };
-                    let peer_live = live.iter().filter(|c| c.peer == i).count();
-                    match hooks::on_connection_established(&mut manager, peers[i], &endpoint) {
-                        Ok(true) => {
-                            cover("inbound.accept");
-                            check("c06.inbound-accept-only-with-free-peer-slot", peer_live < 2);
-                            if nd.bool("accept_ok") {
-                                live.push(LiveConn { id, peer: i, inbound: true });
-                            } else {
-                                cover("inbound.accept-rollback");
-                                let _ = hooks::on_connection_closed(&mut manager, peers[i], id);
-                            }
+                if admitted { cover("inbound.admitted"); inbound_pending += 1; } else { cover("inbound.limit"); }
+            }
+            5 => {
+                // an admitted inbound connection finished negotiating: it turns out to be peer i
+                if inbound_pending == 0 { assume(false); }
+                inbound_pending -= 1;
+                let i = nd.choose("peer", NPEERS as u64) as usize;
+                let id = hooks::next_connection_id(&mut manager);
+                let address = Multiaddr::empty().with(Protocol::Ip4(Ipv4Addr::new(10, 0, 1, i as u8 + 1))).with(Protocol::Tcp(5000));
+                let endpoint = Endpoint::Listener { address, connection_id: id };
+                let peer_live = live.iter().filter(|c| c.peer == i).count();
+                let in_before = hooks::counted(&manager).0;
+                let pre = hooks::peer_state(&manager, &peers[i]).expect("peer context exists");
+                match hooks::on_connection_established(&mut manager, peers[i], &endpoint) {
+                    Ok(true) => {
+                        cover("inbound.accept");
+                        check("c06.inbound-accept-only-with-free-peer-slot", peer_live < 2);
+                        check("c06.inbound-accept-only-below-limit", match max_in { None => true, Some(m) => in_before < m });
+                        if nd.bool("accept_ok") {
+                            live.push(LiveConn { id, peer: i, inbound: true });
+                        } else {
+                            cover("inbound.accept-rollback");
+                            let _ = hooks::on_connection_closed(&mut manager, peers[i], id);
                         }
-                        Ok(false) => {
-                            cover("inbound.reject");
-                            // a third connection, or a connection racing an outstanding secondary dial
-                            let has_dial = dialing.iter().any(|a| a.peer == i) || raw_open.iter().any(|a| a.peer == i);
-                            check("c06.inbound-reject-only-for-a-reason", peer_live >= 2 || (peer_live == 1 && has_dial));
-                        }
-                        Err(()) => check("c05.inbound-established-is-handled", false),
                     }
-                } else {
-                    cover("inbound.limit");
+                    Ok(false) => {
+                        cover("inbound.reject");
+                        let limit_hit = match max_in { None => false, Some(m) => in_before >= m };
+                        if limit_hit { cover("inbound.reject.limit"); }
+                        // a third connection, or a connection racing an outstanding secondary dial
+                        let has_dial = dialing.iter().any(|a| a.peer == i) || raw_open.iter().any(|a| a.peer == i);
+                        check("c06.inbound-reject-only-for-a-reason", limit_hit || peer_live >= 2 || (peer_live == 1 && has_dial));
+                        // surplus connections are rejected without disturbing existing ones or dials in flight
+                        let post = hooks::peer_state(&manager, &peers[i]).expect("peer context exists");
+                        check("c06.rejected-inbound-leaves-peer-state-untouched", post == pre);
+                    }
+                    Err(()) => check("c05.inbound-established-is-handled", false),
                 }
             }
             _ => {
@@ -808,8 +879,8 @@ pub fn c05_manager_steps(nd: &mut Nondet) {
             }
         }
         let (cin, cout) = hooks::counted(&manager);
-        if let Some(m) = max_in { check("c06.inbound-limit-never-exceeded", cin <= m); check("c06.inbound-count-is-live-inbound", cin == live.iter().filter(|c| c.inbound).count()); }
-        if let Some(m) = max_out { check("c06.outbound-limit-never-exceeded", cout <= m); check("c06.outbound-count-is-live-outbound", cout == live.iter().filter(|c| !c.inbound).count()); }
+        if let Some(m) = max_in { check("c06.inbound-limit-never-exceeded", cin <= m); check("c06.inbound-count-is-live-inbound", cin == ghost_in + live.iter().filter(|c| c.inbound).count()); }
+        if let Some(m) = max_out { check("c06.outbound-limit-never-exceeded", cout <= m); check("c06.outbound-count-is-live-outbound", cout == ghost_out + live.iter().filter(|c| !c.inbound).count()); }
         check("c05.pending-map-has-no-orphans", hooks::pending_len(&manager) == raw_open.len() + dialing.len());
     }
     let _ = concluded_without_report;
@@ -1008,5 +1079,295 @@ pub fn c15_get_providers(nd: &mut Nondet) {
                 cover("c15p.peer-failure");
             }
         }
+    }
+}
+
+// ------------------------------------------------------------------------------------------ C10 address book
+use litep2p::transport::manager::address::{scores, AddressRecord, AddressStore};
+
+/// address universe of the store harnesses: index -> (multiaddr, is it a public address?)
+fn store_address(k: usize, peer: PeerId) -> (Multiaddr, bool) {
+    let (ip, public) = match k {
+        0 => (Ipv4Addr::new(10, 0, 0, 1), false),
+        1 => (Ipv4Addr::new(10, 0, 0, 2), false),
+        2 => (Ipv4Addr::new(8, 8, 8, 1), true),
+        3 => (Ipv4Addr::new(8, 8, 8, 2), true),
+        _ => (Ipv4Addr::new(10, 0, 0, 5), false),
+    };
+    (Multiaddr::empty().with(Protocol::Ip4(ip)).with(Protocol::Tcp(30333)).with(Protocol::P2p(peer.into())), public)
+}
+
+fn any_score(nd: &mut Nondet, name: &'static str) -> i32 {
+    // the scores the library itself assigns, plus neighbours and the extremes
+    match nd.choose(name, 8) {
+        0 => 0, 1 => scores::CONNECTION_ESTABLISHED, 2 => scores::CONNECTION_FAILURE, 3 => scores::ADDRESS_FAILURE,
+        4 => 1, 5 => -1, 6 => i32::MAX, _ => 99,
+    }
+}
+
+/// C10: one `AddressStore::insert` from an arbitrary store at any capacity, against a reference model.
+pub fn c10_store_insert(nd: &mut Nondet) {
+    const U: usize = 5;
+    let peer = nd.peer_id_fixed(1);
+    let capacity = 1 + nd.choose("capacity", 3) as usize;
+    let mut store = AddressStore::with_capacity_verif(capacity);
+    // arbitrary pre-state: any subset of the universe within capacity, any stored scores
+    let mut model: Vec<(usize, i32)> = Vec::new();
+    for k in 0..U {
+        if model.len() < capacity && nd.bool("present") {
+            let score = nd.i32("stored_score");
+            let (address, _) = store_address(k, peer);
+            store.addresses.insert(address.clone(), AddressRecord::from_raw_multiaddr_with_score(address, score));
+            model.push((k, score));
+        }
+    }
+    let k = nd.choose("insert_addr", U as u64) as usize;
+    let score = any_score(nd, "insert_score");
+    let (address, public) = store_address(k, peer);
+    store.insert(AddressRecord::new(&peer, address.clone(), score));
+
+    let now: Vec<(usize, i32)> = (0..U).filter_map(|j| store.addresses.get(&store_address(j, peer).0).map(|r| (j, r.score_verif()))).collect();
+    check("c10.store-holds-only-universe-addresses", store.addresses.len() == now.len());
+    check("c10.capacity-never-exceeded", now.len() <= capacity);
+    check("c10.capacity-unchanged", store.max_capacity_verif() == capacity);
+    if let Some(pos) = model.iter().position(|(j, _)| *j == k) {
+        cover("c10.insert.existing");
+        // rediscovery (score 0) never erases the history; a real score replaces it
+        let expect = if score != 0 { score } else { model[pos].1 };
+        for (j, s) in model.iter() {
+            let kept = now.iter().find(|(i, _)| i == j).map(|(_, v)| *v);
+            check("c10.update-touches-exactly-the-address-used", kept == Some(if *j == k { expect } else { *s }));
+        }
+        check("c10.update-keeps-size", now.len() == model.len());
+    } else {
+        let effective = if public { score.saturating_add(scores::PUBLIC_ADDRESS_BONUS) } else { score };
+        if model.len() < capacity {
+            cover("c10.insert.room");
+            check("c10.new-address-stored-with-its-score", now.iter().any(|(j, s)| *j == k && *s == effective));
+            for (j, s) in model.iter() { check("c10.insert-keeps-the-others", now.iter().any(|(i, v)| i == j && v == s)); }
+            check("c10.insert-grows-by-one", now.len() == model.len() + 1);
+        } else {
+            let min = model.iter().map(|(_, s)| *s).min().expect("capacity >= 1");
+            if effective < min {
+                cover("c10.insert.full.dropped");
+                check("c10.lower-scored-newcomer-is-dropped", now == model);
+            } else {
+                cover("c10.insert.full.displaced");
+                check("c10.newcomer-kept", now.iter().any(|(j, s)| *j == k && *s == effective));
+                let removed: Vec<(usize, i32)> = model.iter().copied().filter(|(j, _)| !now.iter().any(|(i, _)| i == j)).collect();
+                check("c10.exactly-one-displaced", removed.len() == 1 && now.len() == capacity);
+                check("c10.displaced-is-lowest-scored", removed.len() == 1 && removed[0].1 == min);
+                for (j, s) in model.iter() {
+                    if let Some((_, v)) = now.iter().find(|(i, _)| i == j) { check("c10.survivors-keep-their-score", v == s); }
+                }
+            }
+        }
+    }
+}
+
+/// C10: `addresses(limit)` returns the `limit` best addresses in non-increasing score order.
+pub fn c10_store_addresses(nd: &mut Nondet) {
+    const U: usize = 4;
+    let peer = nd.peer_id_fixed(1);
+    let mut store = AddressStore::with_capacity_verif(U);
+    let mut model: Vec<(usize, i32)> = Vec::new();
+    for k in 0..U {
+        if nd.bool("present") {
+            let score = nd.i32("stored_score");
+            let (address, _) = store_address(k, peer);
+            store.addresses.insert(address.clone(), AddressRecord::from_raw_multiaddr_with_score(address, score));
+            model.push((k, score));
+        }
+    }
+    let limit = nd.choose("limit", U as u64 + 2) as usize;
+    let out = store.addresses(limit);
+    cover("c10.addresses");
+    check("c10.addresses-length", out.len() == std::cmp::min(limit, model.len()));
+    let mut picked: Vec<(usize, i32)> = Vec::new();
+    for a in out.iter() {
+        let j = (0..U).find(|j| store_address(*j, peer).0 == *a);
+        check("c10.addresses-come-from-the-store", j.is_some() && model.iter().any(|(i, _)| Some(*i) == j));
+        if let Some(j) = j {
+            check("c10.addresses-no-duplicates", !picked.iter().any(|(i, _)| *i == j));
+            let s = model.iter().find(|(i, _)| *i == j).map(|(_, s)| *s).unwrap_or(0);
+            if let Some((_, prev)) = picked.last() { check("c10.addresses-non-increasing-score", *prev >= s); }
+            picked.push((j, s));
+        }
+    }
+    // top-k: nothing left out scores higher than something returned
+    for (j, s) in model.iter() {
+        if !picked.iter().any(|(i, _)| i == j) {
+            for (_, ps) in picked.iter() { check("c10.addresses-are-the-best-ones", ps >= s); }
+        }
+    }
+}
+
+// ------------------------------------------------------------------------------------------ C05-H3 / C10-H3 address shapes
+use std::net::Ipv6Addr;
+use std::borrow::Cow;
+
+/// A structured multiaddress of up to 5 components from an alphabet of well-formed and adversarial components.
+fn any_shape(nd: &mut Nondet, this: PeerId, other: PeerId, local: PeerId) -> Multiaddr {
+    let mut a = Multiaddr::empty();
+    a = match nd.choose("c0", 11) {
+        0 => a.with(Protocol::Ip4(Ipv4Addr::new(10, 0, 0, 9))),
+        1 => a.with(Protocol::Ip4(Ipv4Addr::new(0, 0, 0, 0))),
+        2 => a.with(Protocol::Ip4(Ipv4Addr::new(127, 0, 0, 1))),
+        3 => a.with(Protocol::Ip4(Ipv4Addr::new(10, 0, 0, 77))),         // the node's own listen ip
+        4 => a.with(Protocol::Ip6(Ipv6Addr::new(0x2001, 0xdb8, 0, 0, 0, 0, 0, 1))),
+        5 => a.with(Protocol::Ip6(Ipv6Addr::new(0, 0, 0, 0, 0, 0, 0, 0))),
+        6 => a.with(Protocol::Ip6(Ipv6Addr::new(0, 0, 0, 0, 0, 0, 0, 1))),
+        7 => a.with(Protocol::Dns(Cow::Borrowed("example.com"))),
+        8 => a.with(Protocol::Dns4(Cow::Borrowed("example.com"))),
+        9 => a.with(Protocol::Dnsaddr(Cow::Borrowed("example.com"))),
+        _ => a.with(Protocol::Tcp(30333)),
+    };
+    let tail = |nd: &mut Nondet, a: Multiaddr, name: &'static str| -> (Multiaddr, bool) {
+        match nd.choose(name, 9) {
+            0 => (a, true),
+            1 => (a.with(Protocol::Tcp(30333)), false),
+            2 => (a.with(Protocol::Tcp(4444)), false),                         // the node's own listen port
+            3 => (a.with(Protocol::Udp(30333)), false),
+            4 => (a.with(Protocol::Ws(Cow::Borrowed("/"))), false),
+            5 => (a.with(Protocol::QuicV1), false),
+            6 => (a.with(Protocol::P2p(this.into())), false),
+            7 => (a.with(Protocol::P2p(other.into())), false),
+            _ => (a.with(Protocol::P2p(local.into())), false),
+        }
+    };
+    let (a, end) = tail(nd, a, "c1"); if end { return a; }
+    let (a, end) = tail(nd, a, "c2"); if end { return a; }
+    let (a, end) = tail(nd, a, "c3"); if end { return a; }
+    let (a, _) = tail(nd, a, "c4");
+    a
+}
+
+/// C05-H3 + C10-H3: every address shape through `dial_address` and `add_known_address` + `dial`.
+pub fn c05_address_shapes(nd: &mut Nondet) {
+    let mut manager = TransportManagerBuilder::new().build();
+    let mut calls: Vec<TransportCall> = Vec::new();
+    let cp = &mut calls as *mut Vec<TransportCall> as usize;
+    hooks::register_scripted_tcp(&mut manager, Box::new(move |call: TransportCall| {
+        unsafe { (&mut *(cp as *mut Vec<TransportCall>)).push(call); }
+        true
+    }));
+    manager.register_listen_address(Multiaddr::empty().with(Protocol::Ip4(Ipv4Addr::new(10, 0, 0, 77))).with(Protocol::Tcp(4444)));
+    // a wildcard listener on another port: loopback addresses with that port are the node itself
+    manager.register_listen_address(Multiaddr::empty().with(Protocol::Ip4(Ipv4Addr::new(0, 0, 0, 0))).with(Protocol::Tcp(30333)));
+    let local = hooks::local_peer_id(&manager);
+    let this = nd.peer_id_fixed(1);
+    let other = nd.peer_id_fixed(2);
+    assume(local != this && local != other);
+    let address = any_shape(nd, this, other, local);
+
+    if nd.bool("via_dial_address") {
+        match hooks::dial_address_now(&mut manager, address.clone()) {
+            None => check("c05.dial_address-never-suspends", false),
+            Some(true) => {
+                cover("shape.dial_address.accepted");
+                let dials: Vec<ConnectionId> = calls.iter().filter_map(|c| if let TransportCall::Dial(id) = c { Some(*id) } else { None }).collect();
+                check("c05.accepted-address-is-dialed-once", dials.len() == 1);
+                if dials.len() == 1 {
+                    let tracked = hooks::pending_peer(&manager, &dials[0]);
+                    check("c05.attempt-is-routable", tracked.is_some());
+                    let target = calls.iter().find_map(|c| if let TransportCall::DialTarget(_, p) = c { Some(*p) } else { None }).expect("dial target reported");
+                    // the transport authenticates the remote against `target`; the manager waits for `tracked`
+                    check("c05.transport-dials-the-peer-the-manager-tracks", target.is_none() || target == tracked);
+                    if let Some(p) = tracked { check("c05.peer-is-dialing", !hooks::can_dial_now(&manager, &p)); }
+                }
+            }
+            Some(false) => {
+                cover("shape.dial_address.refused");
+                check("c05.refused-address-makes-no-attempt", !calls.iter().any(|c| matches!(c, TransportCall::Dial(_))));
+                check("c05.refused-address-leaves-peers-dialable", hooks::can_dial_now(&manager, &this) && hooks::can_dial_now(&manager, &other));
+                check("c05.refused-address-tracks-nothing", hooks::pending_len(&manager) == 0);
+            }
+        }
+    } else {
+        let added = manager.add_known_address(this, vec![address.clone()].into_iter());
+        let stored = hooks::peer_addresses(&manager, &this, 64);
+        check("c10.reported-count-is-stored-count", added == stored.len() && stored.len() <= 1);
+        check("c10.nothing-stored-for-other-peers", hooks::address_count(&manager, &other) == 0 && hooks::address_count(&manager, &local) == 0);
+        if stored.len() == 1 {
+            cover("shape.known.stored");
+            let s = &stored[0];
+            check("c10.stored-address-names-this-peer", matches!(s.iter().last(), Some(Protocol::P2p(p)) if PeerId::from_multihash(p).ok() == Some(this)));
+            check("c10.stored-address-is-the-offered-one", *s == address || *s == address.clone().with(Protocol::P2p(this.into())));
+            // own addresses: 10.0.0.77:4444 exactly, and (wildcard listener on 30333) any loopback address with port 30333
+            let first = s.iter().next();
+            let second = s.iter().nth(1);
+            let exact = matches!(first, Some(Protocol::Ip4(ip)) if ip == Ipv4Addr::new(10, 0, 0, 77)) && matches!(second, Some(Protocol::Tcp(4444)));
+            let loopback = match first { Some(Protocol::Ip4(ip)) => ip.is_loopback(), Some(Protocol::Ip6(ip)) => ip.is_loopback(), _ => false };
+            check("c10.stored-address-is-not-a-listen-address", !exact && !(loopback && matches!(second, Some(Protocol::Tcp(30333)))));
+            check("c10.stored-address-is-not-unspecified", !matches!(s.iter().next(), Some(Protocol::Ip4(ip)) if ip.is_unspecified())
+                  && !matches!(s.iter().next(), Some(Protocol::Ip6(ip)) if ip.is_unspecified()));
+            // dialable by the enabled transport: dialing the peer by id hands exactly this address to the transport
+            match hooks::dial_now(&mut manager, this) {
+                Some(true) => {
+                    check("c10.stored-address-is-dialed", calls.iter().any(|c| matches!(c, TransportCall::Open(_))));
+                    check("c10.stored-address-parses-for-the-transport", hooks::tcp_can_dial(s) == Some(Some(this)));
+                }
+                _ => check("c10.peer-with-stored-address-is-dialable", false),
+            }
+        } else {
+            cover("shape.known.refused");
+            check("c10.refused-address-leaves-peer-without-addresses", hooks::dial_now(&mut manager, this) == Some(false));
+        }
+    }
+}
+
+// ------------------------------------------------------------------------------------------ C20 receive side
+use litep2p::protocol::libp2p::bitswap::verif_hooks_receive as bitswap_rx;
+use multihash_codetable::{Code, MultihashDigest};
+
+fn push_varint(out: &mut Vec<u8>, v: u64) {
+    let mut buf = unsigned_varint::encode::u64_buffer();
+    out.extend_from_slice(unsigned_varint::encode::u64(v, &mut buf));
+}
+
+/// C20: a delivered block is paired with the CID recomputed from the received bytes and the prefix' parameters.
+pub fn c20_block_cid(nd: &mut Nondet) {
+    let peer = nd.peer_id_fixed(1);
+    // the prefix a remote may send: four varints (version, codec, hash type, advertised digest length) + optional junk
+    let version = nd.choose("version", 3);                       // 0, 1, 2 (unknown)
+    let codec = match nd.choose("codec", 3) { 0 => 0x70u64, 1 => 0x55u64, _ => nd.u64("codec_raw") };
+    let mh_type = match nd.choose("mh_type", 6) { 0 => 0x12u64, 1 => 0x13, 2 => 0xb220, 3 => 0x16, 4 => 0x11 /* sha1: not compiled in */, _ => nd.u64("mh_type_raw") };
+    let mh_len = match nd.choose("mh_len", 5) { 0 => 32u64, 1 => 0, 2 => 16, 3 => 255, _ => 256 };
+    let mut prefix = Vec::new();
+    push_varint(&mut prefix, version);
+    push_varint(&mut prefix, codec);
+    push_varint(&mut prefix, mh_type);
+    push_varint(&mut prefix, mh_len);
+    let damage = nd.choose("damage", 3);
+    let junk = damage == 1;
+    if junk { prefix.push(1); }
+    let truncated = damage == 2;
+    if truncated { prefix.pop(); }
+    let data = vec![1u8, 2, 3];
+
+    let got = bitswap_rx::block_to_cid(&peer, prefix, data.clone());
+    // reference: recompute from the received data with the hash function the prefix names
+    let well_formed = !junk && !truncated && version <= 1 && mh_len <= 255;
+    let expected = if !well_formed { None } else {
+        match Code::try_from(mh_type) {
+            Err(_) => None,
+            Ok(code) => {
+                let mh = code.digest(&data);
+                match cid::multihash::Multihash::<64>::wrap(mh.code(), mh.digest()) {
+                    Err(_) => None,
+                    Ok(mh) => cid::Cid::new(if version == 0 { cid::Version::V0 } else { cid::Version::V1 }, codec, mh).ok(),
+                }
+            }
+        }
+    };
+    match (&got, &expected) {
+        (Some((c, block)), Some(e)) => {
+            cover("c20.delivered");
+            check("c20.block-is-the-received-data", *block == data);
+            check("c20.cid-is-recomputed-from-the-received-data", c == e);
+        }
+        (None, None) => cover("c20.dropped"),
+        (Some(_), None) => check("c20.malformed-or-uncomputable-prefix-is-dropped", false),
+        (None, Some(_)) => check("c20.valid-block-is-delivered", false),
     }
 }
